@@ -14,7 +14,8 @@ RULE = ("Cases: 4-40 windows on a geometric grid whose peak frequencies follow a
         "optionally bimodal), traditional or azimuthal (1-4 azimuths), n in (0.3, 4], max_iterations in {1,2,3,5,50}, the four "
         "distribution combinations, search range None / bounded. The oracle is an independent numpy implementation of the "
         "published loop. Non-trivial = the reference performs >= 2 iterations or rejects >= 1 window, with every decision "
-        "margin >= 1e-9; distinct by SHA-1 of the case.")
+        "margin >= 1e-9; distinct by SHA-1 of the case."
+        " Outlier windows may form a transient group (contiguous block or scattered) with 8x/40x amplitudes; search limits include inf/1e20/0/-inf. Scale pass: 512-6000 windows per azimuth. The library's debug log supplies the per-iteration quantities.")
 ASSUMPTIONS = [
     "decisions closer than 1e-9 (relative) to a bound or to the 0.01 convergence thresholds are knife edges and not asserted",
     "degenerate states the publication does not define (fewer than two accepted peaks, mean curve without a peak) only require: no exception other than ValueError",
